@@ -279,13 +279,34 @@ Inductive query :=
 | QCellCorner (rank : Z) (shift : list Z)
 | QIterate (k : nat)
 | QIndiceToCoordinate (ind : list Z) (idim : nat)
-| QPointToGrid (coor : list Q).
+| QPointToGrid (coor : list Q)
+| QDefineCoordinates                                     (* db_grid_define_coordinates: the stored X columns it writes *)
+| QAllNodes.                                             (* coordinates of every node through getCoordinate: getAllCoordinates, generateCoordinates, getSlice ... *)
 
 Inductive answer :=
 | AZ (z : Z) | AZs (l : list Z) | AQ (q : Q) | AQs (l : list Q) | AB (b : bool)
 | AOutIdx (out : bool) (idx : list Z)
 | ADerived (p : option (list Z * list Q * list Q))
-| AZss (l : list (list Z)).
+| AZss (l : list (list Z))
+| AQss (l : list (list Q)).
+
+(* db_grid_define_coordinates (/repo/src/Core/db.cpp:319): loop on the samples with an odometer ntab (all zero at start):
+   coor = dx * ntab ; rotateDirect when the grid is rotated ; + x0 ; written into the X columns; then, for every dimension
+   with nval = product of the previous counts: "if ((iech + 1) % nval == 0) { ntab++; if (ntab == nx) ntab = 0; }" *)
+Fixpoint odo_step (nxs ntab : list Z) (nval iech1 : Z) : list Z :=
+  match nxs, ntab with
+  | n :: ns, t :: ts =>
+      (if Z.eqb (Z.rem iech1 nval) 0 then (if Z.eqb (t + 1) n then 0%Z else (t + 1)%Z) else t) :: odo_step ns ts (nval * n)%Z iech1
+  | _, _ => []
+  end.
+Fixpoint define_loop (g : grid) (k : nat) (iech : Z) (ntab : list Z) : list (list Q) :=
+  match k with
+  | O => []
+  | S k' => coords_by_indice g ntab true [] [] :: define_loop g k' (iech + 1)%Z (odo_step (g_nx g) ntab 1%Z (iech + 1)%Z)
+  end.
+Definition define_coordinates (g : grid) : list (list Q) :=
+  define_loop g (Z.to_nat (prodZ (g_nx g))) 0%Z (map (fun _ => 0%Z) (g_nx g)).
+Definition all_ranks (g : grid) : list Z := map Z.of_nat (seq 0 (Z.to_nat (prodZ (g_nx g)))).
 
 Definition eval_query (g : grid) (q : query) : answer :=
   match q with
@@ -307,6 +328,8 @@ Definition eval_query (g : grid) (q : query) : answer :=
   | QIterate k => AZss (iter_run (g_nx g) k 0%Z)
   | QIndiceToCoordinate i d => AQ (nth d (i2c g i [] true) 0)
   | QPointToGrid c => let r := point_to_grid g c in AOutIdx (fst r) (snd r)
+  | QDefineCoordinates => AQss (define_coordinates g)
+  | QAllNodes => AQss (map (fun r => rankToCoordinates g r []) (all_ranks g))
   end.
 
 (* a session: the object answers the queries one after the other.  The session state records what the C++ object
